@@ -33,7 +33,7 @@ func c02Alphabet(quick bool) []SeqOp {
 		op(1, hapi.Cmd{Type: 2, Key: 1, Id: 3, Flag: 0x01, Rcount: 1}),
 		op(0, L(0, 1, 1, 0, 0, 0, 2)),               // expiry 0: success without a hold
 		op(1, withTF(L(0, 1, 2, 3, 5, 0, 7), 0x10)), // priority-flagged: Rcount is the priority, never re-entrant
-		op(1, L(0, 1, 1, 0, 5, 0, 2)), // another connection re-locks LockId 1: it then sets the hold's terms
+		op(1, L(0, 1, 1, 0, 5, 0, 2)),               // another connection re-locks LockId 1: it then sets the hold's terms
 		tick(1*sec), tick(4*sec),
 	)
 	if !quick {
@@ -85,14 +85,19 @@ func c02Specs(quick bool) []*SeqSpec {
 	for _, n := range ramps {
 		specs = append(specs, &SeqSpec{Name: fmt.Sprintf("ramp-%d-holders", n), Cfg: cfg, Ramp: rampHolders(n), Alphabet: rampAlphabet(n), Depth: rd})
 	}
-	// depth ceiling 0xff: ramp one LockId to depth 253, then explore around the ceiling
+	specs = append(specs, depthCeilingSpec("depth-ceiling", cfg, rd, false))
+	return specs
+}
+
+// depthCeilingSpec: one LockId is ramped to re-entrant depth 253 (Rcount 255), then every history around the
+// ceiling 0xff is explored.
+func depthCeilingSpec(name string, cfg hapi.Config, depth int, drain bool) *SeqSpec {
 	var deep []SeqOp
 	for i := 0; i < 253; i++ {
 		deep = append(deep, op(0, L(0, 1, 1, 0, 50, 0, 255)))
 	}
-	specs = append(specs, &SeqSpec{Name: "depth-ceiling", Cfg: cfg, Ramp: deep, Depth: rd, Alphabet: []SeqOp{
-		op(0, L(0, 1, 1, 0, 50, 0, 255)), op(0, L(0, 1, 1, 0, 50, 0, 254)), op(0, hapi.Cmd{Type: 2, Key: 1, Id: 1, Rcount: 1}), op(0, U(0, 1, 1)), op(1, L(0, 1, 2, 0, 50, 0, 0)), tick(1 * sec)}})
-	return specs
+	return &SeqSpec{Name: name, Cfg: cfg, Ramp: deep, Depth: depth, Drain: drain, DrainFor: 70 * sec, Alphabet: []SeqOp{
+		op(0, L(0, 1, 1, 0, 50, 0, 255)), op(0, L(0, 1, 1, 0, 50, 0, 254)), op(0, hapi.Cmd{Type: 2, Key: 1, Id: 1, Rcount: 1}), op(0, U(0, 1, 1)), op(1, L(0, 1, 2, 0, 50, 0, 0)), tick(1 * sec)}}
 }
 
 func seqCheck(id string, level string, plan func(quick bool) *SeqPlan, note string, assumptions []string) {
